@@ -9,6 +9,7 @@ import (
 	"io"
 	"sort"
 	"strconv"
+	"strings"
 )
 
 // ---------------------------------------------------------------- tiny PDF value parser
@@ -686,8 +687,10 @@ func checkFile(b []byte, eol string, encrypted bool) *checked {
 			maxNr = nr
 		}
 	}
-	if sec.size != maxNr+1 {
-		fail("size", "/Size %d but highest object number in the cross-reference is %d", sec.size, maxNr)
+	if sec.size > maxNr+1 {
+		fail("size-too-large", "/Size %d but the highest object number in the cross-reference is %d (objects %d..%d have no entry at all)", sec.size, maxNr, maxNr+1, sec.size-1)
+	} else if sec.size < maxNr+1 {
+		fail("size-too-small", "/Size %d but the cross-reference has an entry for object %d", sec.size, maxNr)
 	}
 	// newest section: strictly increasing object numbers
 	for i := 1; i < len(sec.ents); i++ {
@@ -858,7 +861,11 @@ func checkFile(b []byte, eol string, encrypted bool) *checked {
 	// free list (full files only: an increment lists no free entries)
 	if len(revs) == 1 {
 		for _, f := range freeListFindings(sec.ents) {
-			fail("free-list", "%s", f)
+			cl := "free-list-broken"
+			if strings.HasSuffix(f, "is not on the free list") {
+				cl = "free-list-unlinked"
+			}
+			fail(cl, "%s", f)
 		}
 	}
 	return c
